@@ -126,7 +126,34 @@ func c07R1(c *Ctx, r *Report) {
 					okInc := k == 1 && base != nil && anyIn(sliceOf(base), fieldPathOf(isValue(f.Params[0]), "includeDepth"))
 					r.check(okInc, "C07.R1.gate-writes", construct, c.pos(st.Pos()), "parent depth + 1", "the include sub-parser's depth is %v, not the parent's depth + 1: self-including files would nest without bound", st.Val)
 				default:
-					r.fail("C07.R1.gate-writes", construct, c.pos(st.Pos()), "%s writes ZoneParser.%s", name, fld)
+					// the one-line setter written out in place: the field of a parser this function has just created
+					// (NewZoneParser) is set; inside a method of ZoneParser only under the parent's own permission (or as a
+					// copy of it)
+					fresh := false
+					if fa, ok := st.Addr.(*ssa.FieldAddr); ok {
+						for o := range sliceOf(fa.X) {
+							if call, isCall := o.(*ssa.Call); isCall && calleeNameSSA(&call.Call) == "NewZoneParser" {
+								fresh = true
+							}
+							// zp.sub, which this function assigns a new parser to
+							if ld, isLd := o.(*ssa.UnOp); isLd && ld.Op == token.MUL && readsField("ZoneParser", "sub")(ld.X) && len(callsIn(f, "NewZoneParser")) > 0 {
+								fresh = true
+							}
+						}
+					}
+					okGate := true
+					if fresh && fld == "includeAllowed" && f.Signature.Recv() != nil && derefNamed(f.Signature.Recv().Type()) != nil && derefNamed(f.Signature.Recv().Type()).Obj().Name() == "ZoneParser" {
+						if b, isK := constBool(st.Val); isK && b {
+							okGate = len(guardsMissing(f, st.Block(), []Guard{{Name: "zp.includeAllowed", Op: "val", A: fieldPathOf(isValue(f.Params[0]), "includeAllowed"), Holds: true}})) == 0
+						} else if !isK {
+							okGate = anyIn(sliceOf(st.Val), fieldPathOf(isValue(f.Params[0]), "includeAllowed"))
+						}
+					}
+					if fresh && fld == "includeAllowed" {
+						r.check(okGate, "C07.R1.gate-writes", construct, c.pos(st.Pos()), "set on a parser just created, under the parent's permission", "a sub-parser is allowed to include although the parent is not")
+					} else {
+						r.fail("C07.R1.gate-writes", construct, c.pos(st.Pos()), "%s writes ZoneParser.%s", name, fld)
+					}
 				}
 			}
 		}
